@@ -275,8 +275,20 @@ impl Emitter {
         let i = self.n;
         self.n += 1;
         if self.only.map_or(true, |o| o == i) {
-            for l in f() {
-                writeln!(self.w, "{l}").unwrap();
+            match std::panic::catch_unwind(std::panic::AssertUnwindSafe(f)) {
+                Ok(ls) => {
+                    for l in ls {
+                        writeln!(self.w, "{l}").unwrap();
+                    }
+                }
+                Err(e) => {
+                    let msg = e
+                        .downcast_ref::<String>()
+                        .cloned()
+                        .or_else(|| e.downcast_ref::<&str>().map(|s| s.to_string()))
+                        .unwrap_or_else(|| "?".into());
+                    writeln!(self.w, "panic index={i} {}", msg.replace('\n', " ")).unwrap();
+                }
             }
         }
     }
